@@ -297,15 +297,26 @@ func checkOrderedMapCoupling(r *Reporter, p *Prog) {
 			var loop *loopInfo
 			for _, l := range f.Loops() {
 				l := l
+				// the consumer: the method's parameter, also after it was handed on to an iteration helper
+				isConsumerCall := func(c *ast.CallExpr) bool {
+					if len(params) == 0 || objOfIdent(info, c.Fun) == nil {
+						return false
+					}
+					if objOfIdent(info, c.Fun) == params[0] {
+						return true
+					}
+					cpt, ok := f.PointOf(c)
+					return ok && f.IsVar(c.Fun, cpt, params[0])
+				}
 				for _, pt := range f.Find(func(n ast.Node) bool {
 					c, ok := n.(*ast.CallExpr)
-					return ok && len(params) > 0 && objOfIdent(info, c.Fun) == params[0]
+					return ok && isConsumerCall(c)
 				}) {
 					if f.InLoopBody(l, pt) {
 						loop = &l
 						// the cursor is the variable whose fields are handed to the consumer
 						inspectNoLit(f.nodeAt(pt), func(m ast.Node) bool {
-							if c, ok := m.(*ast.CallExpr); ok && objOfIdent(info, c.Fun) == params[0] && len(c.Args) > 0 {
+							if c, ok := m.(*ast.CallExpr); ok && isConsumerCall(c) && len(c.Args) > 0 {
 								cursor = rootObj(info, c.Args[0])
 							}
 							return true
